@@ -9,6 +9,7 @@ import importlib
 import itertools
 
 from symx.core import AND, OR, NOT, IMPLIES, ITE, IFF, SNum, SBool, ssum, sabs
+from symx.stubs import namer
 
 PROPERTY = "C15"
 FILES = ["solvor/articulation.py", "solvor/kcore.py", "solvor/pagerank.py", "solvor/community.py"]
@@ -76,7 +77,7 @@ def h_struct(s, func, n, pot, order, rev=False, dup=False, labels=False, outside
     """pot: potential undirected edges (u,v) u<=v over range(n+outside)."""
     N = n + outside
     p = {e: s.bool("e%d_%d" % e) for e in pot}
-    name = (lambda u: "n%d" % u) if labels else (lambda u: u)
+    name = namer(labels, "n")
     inv = {name(u): u for u in range(N)}
 
     def neighbors(x):
@@ -200,7 +201,7 @@ def h_pagerank(s, n, arcs, max_iter, edges_variant=False):
 def h_louvain(s, n, edges, order=None, labels=False):
     mod = importlib.import_module("solvor.community")
     gamma = s.real("resolution", 0, None, lo_strict=True)
-    name = (lambda u: "n%d" % u) if labels else (lambda u: u)
+    name = namer(labels, "n")
     inv = {name(u): u for u in range(n)}
     adj = {u: [] for u in range(n)}
     for (u, v) in edges:
@@ -271,7 +272,7 @@ def items(tier, rng):
         for order in orders4:
             for rev in (False, True):
                 out.append({"name": "%s_4" % func, "harness": "h_struct",
-                            "params": {"func": func, "n": 4, "pot": und(4), "order": order, "rev": rev, "labels": rev and order[0] == 2}})
+                            "params": {"func": func, "n": 4, "pot": und(4), "order": order, "rev": rev, "labels": ("str" if (rev or func == "bridges") else "opaque") if order[0] == 2 else False}})  # bridges documents (u, v) with u < v: orderable labels only
         out.append({"name": "%s_4loops" % func, "harness": "h_struct", "split": 5,
                     "params": {"func": func, "n": 4, "pot": und(4, True), "order": [1, 3, 0, 2]}})
         if True:
@@ -304,7 +305,7 @@ def items(tier, rng):
         for sub in itertools.combinations(und(4), k):
             out.append({"name": "lv4", "harness": "h_louvain", "params": {"n": 4, "edges": list(sub), "order": [0, 1, 2, 3] if k % 2 else [2, 0, 3, 1]}})
     for nm, (n, edges) in NAMED_LV.items():
-        out.append({"name": "lv_" + nm, "harness": "h_louvain", "params": {"n": n, "edges": edges, "labels": nm == "path5"}})
+        out.append({"name": "lv_" + nm, "harness": "h_louvain", "params": {"n": n, "edges": edges, "labels": "str" if nm in ("path5", "cycle6") else False}})  # louvain compares labels with <: orderable labels only
     if not q:
         for k in range(0, 11):
             for sub in itertools.combinations(und(5), k):
